@@ -9,8 +9,8 @@ camera's pixels are a function of run and hardware id, so equal `Frame`s mean eq
 `sink.in` and what the storage's `append` received.
 
 For every scenario (ring capacity, frame size `F > 0`, frame counts, client program incl. monitoring, abort, repeated
-acquisitions, storage faults), every schedule and every reachable state (micro-steps included), for a stream whose camera
-has no scripted fault:
+acquisitions, storage and camera faults at any call, cameras that hand out empty frames), every schedule and every reachable
+state (micro-steps included), for clients that keep the map/unmap rule of the monitoring API:
 
 * `stored_is_a_prefix_of_the_camera_frames`: what the storage has received in the current run is, in order and without
   gap or repetition, the camera's frames `0 … m-1` of the current camera run, unchanged (ids, hardware ids, run).
@@ -86,47 +86,42 @@ variable (rt : RT) (h : MReach rt) (s : Nat)
 include h
 
 /-- (0) `sink.in` is used within `channel.c`'s rules in every reachable state -/
-theorem channel_used_within_its_rules (he : (getS rt s).cam.emptyEvery = 0)
-    (hm : rt.client.misused = false) : Ok (getS rt s).sinkCh ∧ (getS rt s).filtCh = freshChan (getS rt s).filtCh.c.cap :=
-  ⟨(DUse.micro rt h s he hm).ok, (DUse.micro rt h s he hm).filt⟩
+theorem channel_used_within_its_rules (hm : rt.client.misused = false) : Ok (getS rt s).sinkCh ∧ (getS rt s).filtCh = freshChan (getS rt s).filtCh.c.cap :=
+  ⟨(DUse.micro rt h s (Here.intro _) hm).ok, (DUse.micro rt h s (Here.intro _) hm).filt⟩
 
 /-- (1) the storage has received exactly the frames committed at stream positions `[base, appended)`, in commit order -/
-theorem storage_gets_consecutive_committed_frames (he : (getS rt s).cam.emptyEvery = 0)
-    (hm : rt.client.misused = false) (hc : (getS rt s).sto.clean = true) :
+theorem storage_gets_consecutive_committed_frames (hm : rt.client.misused = false) (hc : (getS rt s).sto.clean = true) :
     (getS rt s).sto.log = framesIn (getS rt s).sinkFrames (getS rt s).sto.base ((getS rt s).sto.appended - (getS rt s).sto.base) ∧
     FramesOk (getS rt s).sinkFrames (getS rt s).F (getS rt s).sinkCh.total :=
-  ⟨((DLog.micro rt h s he hm).log hc).2.2, (DLog.micro rt h s he hm).frames⟩
+  ⟨((DLog.micro rt h s (Here.intro _) hm).log hc).2.2, (DLog.micro rt h s (Here.intro _) hm).frames⟩
 
 /-- (2) the frames committed since the storage was started are the camera's frames `0 … ncommit-1` of the current run,
 one every `F` bytes -/
-theorem committed_frames_are_the_camera_frames (he : (getS rt s).cam.emptyEvery = 0)
-    (hm : rt.client.misused = false) (hF : 0 < (getS rt s).F) :
+theorem committed_frames_are_the_camera_frames (hm : rt.client.misused = false) (hF : 0 < (getS rt s).F) :
     since (getS rt s).sinkFrames (getS rt s).sto.base =
       expected (getS rt s).cam.run (getS rt s).sto.base (getS rt s).F (getS rt s).sto.ncommit :=
-  (DId.micro rt h s he hm hF).frames
+  (DId.micro rt h s (Here.intro _) hm hF).frames
 
 /-- (3) **C04, safety**: in every reachable state the storage of stream `s` has received, in order, without gap or
 repetition, the camera's frames `0 … m-1` of the current run — each with its frame id, hardware frame id and run (hence its
 pixel bytes) unchanged; `m` never exceeds the number of frames committed. -/
-theorem stored_is_a_prefix_of_the_camera_frames (he : (getS rt s).cam.emptyEvery = 0)
-    (hm : rt.client.misused = false) (hF : 0 < (getS rt s).F) (hc : (getS rt s).sto.clean = true) :
+theorem stored_is_a_prefix_of_the_camera_frames (hm : rt.client.misused = false) (hF : 0 < (getS rt s).F) (hc : (getS rt s).sto.clean = true) :
     ∃ m, m ≤ (getS rt s).sto.ncommit ∧
       (getS rt s).sto.log = (List.range m).map (fun j => (⟨(getS rt s).cam.run, j, j⟩ : Frame)) := by
-  have hl := ((DLog.micro rt h s he hm).log hc).2.2
-  have hi := (DId.micro rt h s he hm hF).frames
+  have hl := ((DLog.micro rt h s (Here.intro _) hm).log hc).2.2
+  have hi := (DId.micro rt h s (Here.intro _) hm hF).frames
   rw [hl, framesIn_since, hi]
   exact expected_below _ _ _ _ _ hF
 
 /-- (4) **C04, completeness**: when the sink has drained an undisturbed run, the storage holds exactly the camera's frames
 `0 … N-1` (`N = max_frame_count`), in order, unchanged. -/
-theorem undisturbed_acquisition_is_complete (he : (getS rt s).cam.emptyEvery = 0)
-    (hm : rt.client.misused = false) (hF : 0 < (getS rt s).F) (hc : (getS rt s).sto.clean = true)
+theorem undisturbed_acquisition_is_complete (hm : rt.client.misused = false) (hF : 0 < (getS rt s).F) (hc : (getS rt s).sto.clean = true)
     (hd : (getS rt s).sto.drained = true) (hnd : (getS rt s).sto.disturbed = false) :
     (getS rt s).sto.log = (List.range (getS rt s).maxFrames).map (fun j => (⟨(getS rt s).cam.run, j, j⟩ : Frame)) := by
-  have hl := (DLog.micro rt h s he hm).log hc
-  have hi := DId.micro rt h s he hm hF
-  have hE := DEnd.micro rt h s he hm hF
-  have hFn := DFin.micro rt h s he hm hF
+  have hl := (DLog.micro rt h s (Here.intro _) hm).log hc
+  have hi := DId.micro rt h s (Here.intro _) hm hF
+  have hE := DEnd.micro rt h s (Here.intro _) hm hF
+  have hFn := DFin.micro rt h s (Here.intro _) hm hF
   obtain ⟨happ, hcomp, hcur⟩ := hE.drained hd hnd hc
   have hdrop : (getS rt s).sto.dropped = false := by
     cases hdd : (getS rt s).sto.dropped with
@@ -166,16 +161,15 @@ theorem undisturbed_acquisition_is_complete (he : (getS rt s).cam.emptyEvery = 0
 client outside `acquire_start`/`acquire_stop`/`acquire_abort`, `runtime.state` not Running, which is the state in which
 `acquire_stop` returns — the storage holds exactly the camera's frames `0 … N-1`: a sink thread that has ended in an
 undisturbed run has ended through its final, empty read (`DStop.ended`), never through its error path. -/
-theorem stopped_undisturbed_acquisition_is_complete (he : (getS rt s).cam.emptyEvery = 0)
-    (hm : rt.client.misused = false) (hF : 0 < (getS rt s).F) (hc : (getS rt s).sto.clean = true)
+theorem stopped_undisturbed_acquisition_is_complete (hm : rt.client.misused = false) (hF : 0 < (getS rt s).F) (hc : (getS rt s).sto.clean = true)
     (hq : quiet rt.client.pc = true) (hs : rt.state ≠ .running) (hrun : 0 < (getS rt s).sto.run)
     (hnd : (getS rt s).sto.disturbed = false) :
     (getS rt s).sto.log = (List.range (getS rt s).maxFrames).map (fun j => (⟨(getS rt s).cam.run, j, j⟩ : Frame)) := by
   have hcl := idle_is_clean rt h hq hs s
-  have d := DStop.micro rt h s he hm hF
+  have d := DStop.micro rt h s (Here.intro _) hm hF
   have h0 := stage_of_quiet rt.client.pc s hq
   rcases d.ended (.inr hcl.1.2.2) hrun with e | e | e
-  · exact undisturbed_acquisition_is_complete rt h s he hm hF hc e hnd
+  · exact undisturbed_acquisition_is_complete rt h s hm hF hc e hnd
   · rw [hnd] at e; cases e
   · omega
 
@@ -187,8 +181,8 @@ theorem streams_do_not_mix (s' : Nat) (st : Stream) (hne : s ≠ s') : getS (set
 
 /-- non-vacuity: the premises hold in the initial state of a scenario -/
 example : let rt := initRT 400 [some { F := 104, n := 17 }, none] [.start, .stop]
-    MReach rt ∧ (getS rt 0).cam.emptyEvery = 0 ∧ rt.client.misused = false ∧
+    MReach rt ∧ rt.client.misused = false ∧
     0 < (getS rt 0).F ∧ (getS rt 0).sto.clean = true :=
-  ⟨.init _ _ _, by decide, by decide, by decide, by decide⟩
+  ⟨.init _ _ _, by decide, by decide, by decide⟩
 
 end AcqVerif.C04
